@@ -38,6 +38,8 @@ NoHang(O, mayPause) ==
 \* ... and no join is left waiting inside a workflow that is still considered running
 NoWaitingAtRest(O) ==
   O.pend.quiet => \A t \in Rng(O.tk) : t.state = "WAITING" => By(Rng(O.wf), t.wf).state \in Final \cup {"PAUSED"}
+\* only tasks of the definition (of the workflow and of the sub-workflows it calls) are ever executed
+KnownTasksOnly(D, O) == \A t \in Rng(O.tk) : D.tasks[t.name].wf # "unknown"
 DeclaredErrorsOnly(ev, declared, faulty) ==
   \/ ev.exc = "none" \/ ev.exc \in declared
   \/ (ev.exc = "ValueError" /\ (ev.dup \/ faulty))      \* "already completed" rejection of a redelivered / racing result
@@ -79,13 +81,15 @@ Started(O, t) == t.state \in {"RUNNING", "DELAYED", "SUCCESS"} \/ KidsAx(O, t.si
 Need(D, n)    == IF D.tasks[n].join = -1 THEN Cardinality(Rng(D.inbound[n])) ELSE D.tasks[n].join
 FedNames(O, t) == {i.name : i \in {x \in TasksOf(O, t.wf) : Done(x.state) /\ t.name \in Rng(x.next)}}
 \* a join leaves WAITING for RUNNING only when enough inbound tasks completed AND routed to it
+\* (whether a task is a join is read from the DEFINITION, not from the row: a row created without the join's unique key
+\*  is still an execution of a join task)
 JoinGate(D, P, O) ==
   \A t \in Rng(O.tk) :
-     (t.isJoin /\ Started(O, t) /\ (~Has(Rng(P.tk), t.sid) \/ ~Started(P, By(Rng(P.tk), t.sid))))
+     (D.tasks[t.name].join # 0 /\ Started(O, t) /\ (~Has(Rng(P.tk), t.sid) \/ ~Started(P, By(Rng(P.tk), t.sid))))
         => Cardinality(FedNames(O, t)) >= Need(D, t.name)
 \* one execution per join and per run; it starts its action once (no retry / items / rerun involved)
 JoinOnce(D, O, rerunSeen) ==
-  \A t \in Rng(O.tk) : t.isJoin =>
+  \A t \in Rng(O.tk) : D.tasks[t.name].join # 0 =>
      /\ \A u \in Rng(O.tk) : (u.wf = t.wf /\ u.name = t.name) => u.sid = t.sid
      /\ (D.tasks[t.name].retry = 0 /\ D.tasks[t.name].items = -1 /\ ~rerunSeen)
            => Cardinality(KidsAx(O, t.sid)) + Cardinality(KidsWf(O, t.sid)) <= 1
@@ -298,6 +302,11 @@ ParentMirrorsChild(D, O) ==
      LET pt == By(Rng(O.tk), c.parent) IN
        \* (a parent task the operator SKIPPED keeps that state whatever its failed child says)
        (D.tasks[pt.name].items = -1 /\ D.tasks[pt.name].retry = 0 /\ pt.state # "SKIPPED") => pt.state = c.state
+\* the execution started by a task with `workflow: X` is an execution of the definition X denotes for the caller: the
+\* workbook-relative one (<workbook>.X) when the caller lives in a workbook that has it
+CalledDefinition(D, O) ==
+  \A c \in Rng(O.wf) : c.parent # "" =>
+     LET pt == By(Rng(O.tk), c.parent) IN D.tasks[pt.name].sub # "" => c.name = D.wbprefix \o D.tasks[pt.name].sub
 RootAndNamespace(O) ==
   \A c \in Rng(O.wf) : c.parent # "" =>
      LET pw == By(Rng(O.wf), By(Rng(O.tk), c.parent).wf) IN c.root = pw.root /\ c.ns = pw.ns /\ c.project = pw.project
